@@ -177,6 +177,17 @@ def base_specs():
         out.append(PSpec('c08_fixedkey_%s_%s' % (side, 'zero' if ch else 'none'), [
             Packet('Root', [F('fixed', 'MsgType', n=4), F('fixed', 'Note', n=6), F('match', 'Body', key='MsgType', pairs=[(['LO'], 'Logon'), (['QB', 'QA'], 'Logout')])], root=True),
             logon, logout], opts(FixedStringPadFromLeft=side, FixedStringPadChar=ch), meta=meta))
+    # a MetaData-typed field whose own NAME is another MetaData entry (the type decides, not the name); numeric keys spelled
+    # with leading zeros, alone and in lists (the spelling of a key must not depend on where it stands)
+    xmeta = [('Price', ('basic', 'u64'), 'price'), ('Qty', ('basic', 'u32'), 'quantity'), ('Sym', ('fixed', 6, False), 'sym')]
+    out.append(PSpec('c08_meta_crossnamed', [Packet('Root', [F('meta', 'Qty', typ='Price'), F('meta', 'Price', typ='Qty'), F('meta', 'Sym', typ='Qty', repeat=True),
+                                                            F('meta', 'Last', typ='Sym'), F('obj', 'Tail', typ='Leg')], root=True),
+                                             Packet('Leg', [F('meta', 'Price', typ='Sym'), F('meta', 'Qty', typ='Qty')])], opts(), meta=xmeta))
+    from .pspec import KeyLit
+    out.append(PSpec('c08_zerokeys', [Packet('Root', [F('basic', 'Kind', typ='u16'),
+                                                     F('match', 'P', key='Kind', pairs=[([KeyLit('007'), KeyLit('010'), KeyLit('0')], 'Logon'), ([KeyLit('0042')], 'Logout'),
+                                                                                        ([KeyLit('00100'), 9], 'Logout')])], root=True),
+                                      logon, logout], opts(), meta=meta))
     return out
 
 
